@@ -11,7 +11,10 @@ RULE = ('exhaustive small scope over (length, chunk size, overlap<chunk size) --
         'the blocks data_chunk returns for them with and without overlap on 1-D and 2-D data --, (length, n_excerpts, '
         'excerpt_size), data_chunk on all 2-tuples of bounds in -9..9, random 4-tuples, wrong lengths and non-tuples, '
         'multi-file size lists x chunk lengths (direct helper and real FlatEphysReader / '
-        'ArrayEphysReader instances), real mtscomp .cbin readers over chunk durations x batch sizes x cache '
+        'ArrayEphysReader instances), real Flat / Array / Npy / Random readers over SAMPLE RATES (c/600 Hz for every '
+        'chunk length c up to a bound, fractional rates (c+f)/600, exact ties m/16 Hz, calibrated probe rates like '
+        '29999.954 Hz with recordings of 2-3 chunks of ~1.8e7 samples, given as float / int / numpy.float64; the chunk '
+        'length is computed by the model as the nearest integer to 600 * rate), real mtscomp .cbin readers over chunk durations x batch sizes x cache '
         'on/off; then seeded random larger cases. Non-trivial = more than one chunk/interval/excerpt is '
         'produced; distinct = distinct abstract input.')
 EXHAUSTIVE = {'quick': True, 'thorough': True}
@@ -28,9 +31,14 @@ CLAUSES = {
     28: 'C16_data_chunk_tuple / C16_data_chunk_pair (data_chunk on non-negative bounds = the chunk rows / kept rows)',
 }
 TRUSTED = ['mtscomp (compression, its chunk_bounds, thread pool and cache: runtime, not modelled)',
-           'np.memmap / file sizes for FlatEphysReader']
+           'np.memmap / file sizes for FlatEphysReader',
+           'IEEE double product 600.0 * sample_rate: modelled by the exact product inside the regime rate_exact_b of C16/Rate.v '
+           '(product < 2^30 and a half-integer or > 2^-20 away from every half-integer), where rounding the product cannot '
+           'change round() of it']
 ASSUMES = ['overlap < chunk_size, chunk_size >= 1 (C16_termination_needs_ov_lt_cs shows the guard is needed)',
-           'file sizes >= 0 with at least one file; n_excerpts >= 2 for excerpts(); excerpt_size >= 1 for get_excerpts']
+           'file sizes >= 0 with at least one file; n_excerpts >= 2 for excerpts(); excerpt_size >= 1 for get_excerpts',
+           'sample rate a Python float / int / numpy.float64 with round(600 * rate) >= 1 (C16_reader_rate_zero: below that '
+           'the constructor stops at assert chunk_size > 0); float32 rates are not drawn']
 TIMEOUT = {'quick': 10, 'thorough': 30}
 
 
@@ -57,8 +65,92 @@ def _size_lists(kmax, smax, lo=1):
             yield list(sizes)
 
 
+def _rate_parts(rate):
+    """rate (float or int) as the exact dyadic num / 2**k."""
+    num, den = float(rate).as_integer_ratio()
+    return num, den.bit_length() - 1
+
+
+def _rate_cs(rate):
+    """Mirror of Rate.v: (inside the regime rate_exact_b and chunk length >= 1, chunk length)."""
+    num, k = _rate_parts(rate)
+    d, p = 1 << k, 600 * num
+    q, r = divmod(p, d)
+    cs = q if 2 * r < d else q + 1 if 2 * r > d else q if q % 2 == 0 else q + 1
+    ok = num > 0 and p < (1 << 30) * d and (2 * r == d or d <= (1 << 20) * abs(2 * r - d))
+    return ok and cs >= 1, cs
+
+
+def _rr(sizes, rate, backend, rtype='float'):
+    """reader built with an explicit sample rate; the rate travels as float.hex() (exact)."""
+    if rtype == 'int' and float(rate) != int(rate):
+        rtype = 'float'
+    if backend != 'flat' and len(sizes) > 1:
+        sizes = [sum(sizes)]        # one array; only flat readers take several files
+    return {'kind': 'reader_rate', 'inp': {'sizes': list(sizes), 'rate': float(rate).hex(), 'rtype': rtype, 'backend': backend}}
+
+
+_RR_BACKENDS = ('flat', 'array', 'random', 'npy')
+_RR_TYPES = ('float', 'np64', 'float', 'int')
+# calibrated / nominal acquisition rates (Hz); 600 s of them are ~1e6..3e7 samples
+_RR_PROBE = (29999.954, 30000.1, 30000.0, 29999.5, 30000.27, 2500.0, 2499.9716, 2500.0381, 24999.99, 25000.0, 20000.3,
+             1000.0, 999.997, 100.0, 32000.5, 44100.0, 48000.0, 25000.0 / 3, 10000.0 / 7, 1250.0, 1249.99984)
+
+
+def _rate_cases(tier, rng):
+    """The sample-rate axis of the reader clause: chunk length = int(round(600.0 * sample_rate))."""
+    quick = tier == 'quick'
+    out = []
+    # forced instances first: a product that comes out one ulp above an integer, a calibrated rate, ties
+    out.append(_rr([50], 21 / 600.0, 'flat'))
+    out.append(_rr([40000000], 29999.954, 'random'))
+    out.append(_rr([20, 22, 45], 21 / 600.0, 'flat'))
+    out.append(_rr([300], 3 / 16.0, 'array'))       # 112.5 samples -> 112 (ties to even)
+    out.append(_rr([100], 1 / 16.0, 'array'))       # 37.5 -> 38
+    # every chunk length c: rate c/600 (the float product is c, c + 1ulp or c - 1ulp)
+    for c in range(1, (130 if quick else 420) + 1):
+        be = _RR_BACKENDS[c % 4]
+        sizes = [2 * c + 3] if be != 'flat' else ([c + 1, c + 2] if c % 8 else [c - 1, 1, 2 * c + 1])
+        out.append(_rr(sizes, c / 600.0, be, _RR_TYPES[(c // 4) % 4]))
+    # fractional products: (c + f) / 600
+    fr = (0.1, 0.25, 0.4, 0.45, 0.49, 0.51, 0.55, 0.6, 0.75, 0.9, 0.999, 0.001)
+    for c in range(1, (9 if quick else 40) + 1):
+        for j, f in enumerate(fr):
+            be = _RR_BACKENDS[(c + j) % 4]
+            sizes = [3 * c + 4] if be != 'flat' else [c + 2, 2 * c + 3]
+            out.append(_rr(sizes, (c + f) / 600.0, be, _RR_TYPES[j % 3]))
+    # exact ties: rate m/16 Hz -> 37.5 m samples
+    for m in range(1, (16 if quick else 64), 2):
+        cs = _rate_cs(m / 16.0)[1]
+        out.append(_rr([2 * cs + 5] if m % 4 == 1 else [cs, cs + 1, 3], m / 16.0, _RR_BACKENDS[(m // 2) % 3]))
+    # acquisition rates: recordings of 2-3 chunks (no data is allocated: sparse files, broadcast views)
+    for j, rate in enumerate(_RR_PROBE):
+        cs = _rate_cs(rate)[1]
+        for be in (('random', 'array') if quick else ('random', 'array', 'flat')):
+            n = 2 * cs + rng.randint(1, cs - 1)
+            sizes = [n] if be != 'flat' else [cs + 7, n - cs - 7]
+            out.append(_rr(sizes, rate, be, 'int' if (j + len(be)) % 2 else 'float'))
+    # random: log-uniform rates, chunk lengths 1..~3000 and acquisition range
+    for _ in range(60 if quick else 1200):
+        if rng.random() < 0.8:
+            rate = 10 ** rng.uniform(-2.7, 0.7)
+        else:
+            rate = rng.choice((1000.0, 2500.0, 20000.0, 25000.0, 30000.0)) * (1 + rng.uniform(-2e-5, 2e-5))
+        cs = _rate_cs(rate)[1]
+        be = rng.choice(_RR_BACKENDS[:3]) if cs < 5000 else rng.choice(('array', 'random'))
+        if be == 'flat':
+            sizes = [rng.randint(1, 3 * cs) for _ in range(rng.randint(1, 4))]   # np.memmap refuses an empty file
+        else:
+            sizes = [rng.randint(0, 4 * cs + 2)]
+        out.append(_rr(sizes, rate, be, rng.choice(('float', 'np64'))))
+    return [c for c in out if _rate_cs(float.fromhex(c['inp']['rate']))[0]]
+
+
 def generate(tier, rng):
     cases = []
+    # stage 5 corpus (runs first): readers built from a sample rate
+    if tier != 'search':
+        cases += _rate_cases(tier, rng)[:5]
     # corpus: boundary cases written down when the model was transcribed
     for n, cs, ov in [(5, 4, 3), (6, 4, 3), (0, 1, 0), (1, 1, 0), (10, 10, 9), (11, 10, 9), (9, 10, 0),
                       (20, 10, 0), (21, 10, 1), (7, 3, 2)]:
@@ -88,6 +180,7 @@ def generate(tier, rng):
         for _ in range(3000):
             cs = rng.randint(1, 40)
             cases.append({'kind': 'chunk_bounds', 'inp': {'n': rng.randint(0, 300), 'cs': cs, 'ov': rng.randint(0, cs - 1)}})
+        cases += _rate_cases('thorough', rng)
         for _ in range(1500):
             cases.append({'kind': 'reader_bounds', 'inp': {'sizes': [rng.randint(0, 40) for _ in range(rng.randint(1, 5))], 'cs': rng.randint(1, 30)}})
             cases.append({'kind': 'excerpts', 'inp': {'n': rng.randint(0, 200), 'k': rng.randint(2, 9), 'size': rng.randint(0, 30)}})
@@ -138,6 +231,8 @@ def generate(tier, rng):
         for _ in range(150):
             sizes = [rng.randint(1, 6) for _ in range(3)]
             cases.append({'kind': 'reader', 'inp': {'sizes': sizes, 'cs': rng.randint(1, 8), 'backend': 'flat'}})
+    # real readers over sample rates (stage 5)
+    cases += _rate_cases(tier, rng)[5:]
     # compressed readers: n samples at rate 10 Hz, chunk duration d/10 s -> chunks of d samples
     ns = (1, 2, 7, 12, 30) if quick else (1, 2, 3, 7, 12, 13, 30, 31, 50)
     ds = (1, 2, 3, 5, 7, 40) if quick else (1, 2, 3, 4, 5, 7, 11, 40)
@@ -262,6 +357,38 @@ def run_case(case):
             return ('reader', b, ivs, ns)
         finally:
             shutil.rmtree(d, ignore_errors=True)
+    if k == 'reader_rate':
+        from pathlib import Path
+        from phylib.io import traces as tr
+        rate = float.fromhex(i['rate'])
+        rate = int(rate) if i['rtype'] == 'int' else np.float64(rate) if i['rtype'] == 'np64' else rate
+        sizes = i['sizes']
+        d = _tmp()
+        try:
+            if i['backend'] == 'flat':
+                paths = []
+                for j, s in enumerate(sizes):
+                    p = os.path.join(d, 'f%d.bin' % j)
+                    with open(p, 'wb') as f:
+                        f.truncate(s * 4)      # sparse: s samples x 2 channels x int16
+                    paths.append(Path(p))
+                r = tr.get_ephys_reader(paths, sample_rate=rate, dtype=np.int16, n_channels=2)
+            elif i['backend'] == 'array':
+                # a view of one row: the reader only looks at the shape
+                r = tr.get_ephys_reader(np.broadcast_to(np.zeros((1, 2), dtype=np.int16), (sizes[0], 2)), sample_rate=rate)
+            elif i['backend'] == 'npy':
+                p = os.path.join(d, 'a.npy')
+                np.save(p, np.zeros((sizes[0], 2), dtype=np.int16))
+                r = tr.get_ephys_reader(p, sample_rate=rate)
+            else:
+                r = tr.RandomEphysReader(sizes[0], 2, sample_rate=rate)
+            b = [int(x) for x in r.chunk_bounds]
+            ivs = [[int(a), int(b_)] for a, b_ in r.iter_chunks()]
+            ns = int(r.n_samples)
+            del r
+            return ('reader', b, ivs, ns)
+        finally:
+            shutil.rmtree(d, ignore_errors=True)
     if k == 'mtscomp':
         import mtscomp
         from phylib.io.traces import get_ephys_reader
@@ -306,6 +433,10 @@ def encode(case, obs):
     elif k == 'reader':
         cin = q.app('InReader', q.zl(i['sizes']), q.z(i['cs']))
         cobs = 'ObsCrash' if crash else q.app('ObsReader', q.zl(obs[1]), _ivs(obs[2]), q.z(obs[3]))
+    elif k == 'reader_rate':
+        num, kk = _rate_parts(float.fromhex(i['rate']))
+        cin = q.app('InReaderRate', q.zl(i['sizes']), q.z(num), q.z(kk))
+        cobs = 'ObsCrash' if crash else q.app('ObsReader', q.zl(obs[1]), _ivs(obs[2]), q.z(obs[3]))
     elif k == 'mtscomp':
         if crash:
             # without the reader's own chunk bounds the input cannot be stated; use a well-formed
@@ -341,7 +472,7 @@ def nontrivial(case, obs):
     if obs[0] == 'crash':
         return False
     k = case['kind']
-    if k == 'reader':
+    if k in ('reader', 'reader_rate'):
         return len(obs[2]) > 1
     if k == 'mtscomp':
         return len(obs[4]) > 1
@@ -364,6 +495,20 @@ def dist(case, obs):
         out.append('%s.files=%d' % (k, len(i['sizes'])))
         if k == 'reader':
             out.append('reader.backend=' + i['backend'])
+    elif k == 'reader_rate':
+        rate = float.fromhex(i['rate'])
+        num, kk = _rate_parts(rate)
+        rem = (600 * num) % (1 << kk)
+        out.append('rr.files=%d' % len(i['sizes']))
+        out.append('rr.backend=' + i['backend'])
+        out.append('rr.rtype=' + i['rtype'])
+        out.append('rr.product=%s' % ('integer' if rem == 0 else 'tie' if 2 * rem == (1 << kk) else
+                                      'below-half' if 2 * rem < (1 << kk) else 'above-half'))
+        from fractions import Fraction
+        fp = Fraction(600.0 * rate) - Fraction(600 * num, 1 << kk)
+        out.append('rr.float_product=%s' % ('exact' if fp == 0 else 'rounded-up' if fp > 0 else 'rounded-down'))
+        out.append('rr.chunk_len=%s' % ('1' if _rate_cs(rate)[1] == 1 else '<=200' if _rate_cs(rate)[1] <= 200 else
+                                        '<=1e5' if _rate_cs(rate)[1] <= 100000 else '>1e5'))
     elif k == 'mtscomp':
         out.append('mtscomp.chunks=%s' % _bucket(len(obs[2]) - 1))
         out.append('mtscomp.batch=%d' % obs[3])
@@ -391,6 +536,13 @@ def _bucket(n):
 
 def shrink(case):
     k, i = case['kind'], dict(case['inp'])
+    if k == 'reader_rate':
+        rate = float.fromhex(i['rate'])
+        for j in ({'backend': 'random', 'sizes': [sum(i['sizes'])]}, {'rtype': 'float'},
+                  {'rate': (rate / 2).hex()}, {'rate': (_rate_cs(rate)[1] / 600.0).hex()}):
+            j = dict(i, **j)
+            if j != i and _rate_cs(float.fromhex(j['rate']))[0] and not (j['rtype'] == 'int' and float.fromhex(j['rate']) % 1):
+                yield {'kind': k, 'inp': j}
     for key, v in i.items():
         if isinstance(v, bool):
             continue
@@ -418,6 +570,8 @@ def shrink(case):
                 if v[d] > 0:
                     j = dict(i)
                     j[key] = v[:d] + [v[d] - 1] + v[d + 1:]
+                    if k in ('reader', 'reader_rate') and key == 'sizes' and j.get('backend') == 'flat' and v[d] == 1:
+                        continue        # np.memmap refuses an empty file
                     yield {'kind': k, 'inp': j}
 
 
